@@ -470,4 +470,29 @@ example : (run T0 (mk T0 ['d', 'i', 'v'] false [("style".toList, some "top: 1px"
 example : (reparse T0 (run T0 (mk T0 ['d', 'i', 'v'] false []) [.styProp "content".toList (some "&quot;".toList)])).1.sty
     ≠ (run T0 (mk T0 ['d', 'i', 'v'] false []) [.styProp "content".toList (some "&quot;".toList)]).sty := by decide
 
+/-! non-vacuity of C10f -/
+
+/-- `setAttribute('STYLE', 'Color: RED; junk; top : 1px')` replaces the map by what the string parses to -/
+example : ((setAttribute T0 "STYLE".toList (some "Color: RED; junk; top : 1px".toList)
+      (run T0 (mk T0 ['d', 'i', 'v'] false []) [.styProp "float".toList (some "left".toList)])).2).sty
+    = [("color".toList, "RED".toList), ("top".toList, "1px".toList)] := by decide
+/-- `setStyles` is the sequence of `setStyle` calls; an empty value removes -/
+example : (setStyles [("paddingTop".toList, some "5px".toList), ("float".toList, none), ("color".toList, some "red".toList)]
+      (run T0 (mk T0 ['d', 'i', 'v'] false []) [.styProp "float".toList (some "left".toList)])).sty
+    = [("padding-top".toList, "5px".toList), ("color".toList, "red".toList)] := by decide
+/-- a `ClassSynced` state with a class and an attribute: a style write puts `style` last, a second one rewrites it in
+    place, emptying the style deletes the entry; nothing else moves -/
+def eS : El := run T0 (mk T0 ['d', 'i', 'v'] false [(classK, some ['a']), ("id".toList, some ['i'])]) [.sync]
+example : DictInv eS ∧ ClassSynced eS := ⟨reach_inv ⟨_, _, _, _, rfl⟩, by unfold ClassSynced; decide⟩
+example : viewList (setStyle "top".toList (some "1px".toList) eS)
+    = [("id".toList, some ['i']), (classK, some ['a']), (styleK, some "top: 1px".toList)] := by decide
+example : viewList (setAttribute T0 "title".toList (some ['t']) (setStyle "top".toList (some "1px".toList) eS)).2
+    = [("id".toList, some ['i']), (classK, some ['a']), (styleK, some "top: 1px".toList), ("title".toList, some ['t'])] := by decide
+example : viewList (assignStyle (some "top: 2px; left: 0".toList)
+      (setAttribute T0 "title".toList (some ['t']) (setStyle "top".toList (some "1px".toList) eS)).2)
+    = [("id".toList, some ['i']), (classK, some ['a']), (styleK, some "top: 2px; left: 0".toList), ("title".toList, some ['t'])] := by
+  decide
+example : viewList (removeAttribute styleK (setStyle "top".toList (some "1px".toList) eS))
+    = [("id".toList, some ['i']), (classK, some ['a'])] := by decide
+
 end AHP.C10
